@@ -223,7 +223,10 @@ func (r *c16Rig) checkFormSuccessX(res rhp.RPCFormContractResult, hostHonest boo
 		return "c16:contract-not-fully-signed|the returned contract does not carry both valid signatures"
 	}
 	if !hostHonest {
-		return ""
+		// the host->renter stream was tampered with: what the renter cannot know (host parents, host input
+		// signatures) is not judged, but the final transaction it returns must be the one the host broadcast
+		// (same transaction id) and must still carry the renter's own contract signature
+		return r.checkReturnedTxn(res.FormationSet.Transactions, h)
 	}
 	// a fresh node at the host's chain accepts the set, and mining it creates the contract
 	fresh := node.New(r.u)
@@ -243,6 +246,45 @@ func (r *c16Rig) checkFormSuccessX(res rhp.RPCFormContractResult, hostHonest boo
 	}
 	if !fce.V2FileContract.RenterOutput.Value.Equals(types.Siacoins(25)) || !fce.V2FileContract.TotalCollateral.Equals(types.Siacoins(20)) || cs.ContractSigHash(fce.V2FileContract) != h {
 		return "c16:mined-contract-differs|the mined contract is not the agreed one"
+	}
+	return ""
+}
+
+// checkReturnedTxn: the last transaction of a returned set is the transaction the host put into its pool for
+// the contract with sighash h, and the contract (or renewal's new contract) in it carries the renter's signature.
+func (r *c16Rig) checkReturnedTxn(set []types.V2Transaction, h types.Hash256) string {
+	if len(set) == 0 {
+		return "c16:empty-set|the returned transaction set is empty"
+	}
+	cs := r.host.n.CM.TipState()
+	contractIn := func(txn types.V2Transaction) (types.V2FileContract, bool) {
+		for _, fc := range txn.FileContracts {
+			if cs.ContractSigHash(fc) == h {
+				return fc, true
+			}
+		}
+		for _, res := range txn.FileContractResolutions {
+			if ren, ok := res.Resolution.(*types.V2FileContractRenewal); ok && cs.ContractSigHash(ren.NewContract) == h {
+				return ren.NewContract, true
+			}
+		}
+		return types.V2FileContract{}, false
+	}
+	last := set[len(set)-1]
+	fc, ok := contractIn(last)
+	if !ok {
+		return "c16:returned-set-lacks-contract|the last transaction of the returned set does not contain the agreed contract"
+	}
+	if !r.u.As[1].Key.PublicKey().VerifyHash(h, fc.RenterSignature) {
+		return "c16:returned-set-unsigned|the contract inside the returned transaction set does not carry the renter's signature (the set cannot confirm)"
+	}
+	for _, txn := range r.host.n.CM.V2PoolTransactions() {
+		if _, ok := contractIn(txn); ok {
+			if txn.ID() != last.ID() {
+				return fmt.Sprintf("c16:returned-set-differs-from-broadcast|the renter reports success with transaction %v, the host broadcast %v for the same contract (the renter never compared what it signed with what came back)", last.ID(), txn.ID())
+			}
+			return ""
+		}
 	}
 	return ""
 }
